@@ -107,10 +107,10 @@ def float_order(lc, q):
     return sorted(range(len(lc)), key=lambda i: (keys[i], i))
 
 
-def run_order(ctx, count, seed, corpus_prop="C11"):
+def run_order(ctx, count, seed, corpus_prop="C11", only_lines=None):
     harness = common.build_harness("order")
     driver = common.build_driver("order")
-    lines = common.corpus(corpus_prop, ("OR ",)) + common.harness_gen(harness, ["rand", seed, count])
+    lines = list(only_lines) if only_lines is not None else common.corpus(corpus_prop, ("OR ",)) + common.harness_gen(harness, ["rand", seed, count])
     impl, model, _ = common.run_both([harness, "run"], [driver], lines, chunk=500)
     res = {"runs": len(lines), "exact": 0, "inexact": 0, "exact_with_equal_keys": 0, "exact_nontrivial": 0,
            "order_mismatch_exact": [], "order_differs_inexact": 0, "differs_from_binary32_emulation": [],
@@ -169,8 +169,9 @@ def summary(res):
     return out
 
 
-def report(ctx, res):
+def report(ctx, res, strict_float=True):
     """turn the result of run_order into violations of the calling check (never a concrete failing input: the tie only).
+    strict_float=False: differences from the binary32 emulation on inexact cases are not alarmed (only counted).
     returns the number of alarms raised"""
     n = 0
     fmt = "OR nrows (minX maxX minY maxY orient)* ncells (x y w h orient pol fixed obs)* wn wd yn yd hn hd effort"
@@ -182,6 +183,8 @@ def report(ctx, res):
             ("placement_mismatch", "correspondence coq/CellOrder.v legalize_real <-> Circuit::legalize",
              "Circuit::legalize differs from legalize_real although both use the same cell order"),
             ("crash", "order harness / driver", "the order harness or driver failed")):
+        if key == "differs_from_binary32_emulation" and not strict_float:
+            continue
         if res[key]:
             first = res[key][0]
             ctx.violation("%s (%d cases); no failing input for the property itself searched here" % (what, len(res[key])),
@@ -189,6 +192,18 @@ def report(ctx, res):
                            "format": fmt}, found_input=False)
             n += 1
     return n
+
+
+def replay_case(case):
+    """re-run one OR case; prints both sides; returns 1 when the tie is broken on it"""
+    r = run_order(None, 0, 0, only_lines=[case])
+    print("case :", case)
+    print("summary:", summary(r))
+    bad = r["order_mismatch_exact"] + r["differs_from_binary32_emulation"] + r["placement_mismatch"] + r["crash"]
+    for b in bad:
+        print("impl :", b[1])
+        print("model:", b[2])
+    return 1 if bad else 0
 
 
 if __name__ == "__main__":
